@@ -103,12 +103,12 @@ def make_case(rng, fault, collinear=None):
     nh = [-math.sin(az) * side, math.cos(az) * side]
     mid = [(A[0] + B[0]) / 2, (A[1] + B[1]) / 2]
     dip_pt = [mid[0] + nh[0] * rng.choice([1e5, 1e7]), mid[1] + nh[1] * rng.choice([1e5, 1e7])]
-    mind = rng.choice([0, 0, 10e3, 50e3])
+    mind = rng.choice([0, 0, 10e3, 50e3, 80e3])
     coords = [A, B]
     if collinear:
         m = collinear
         coords = [A, [A[0] + (B[0] - A[0]) * m, A[1] + (B[1] - A[1]) * m], B]
-    f = {"model": "fault" if fault else "subducting plate", "name": "s", "coordinates": coords, "dip point": dip_pt, "min depth": mind, "max depth": rng.choice([660e3, 400e3]), "segments": sj,
+    f = {"model": "fault" if fault else "subducting plate", "name": "s", "coordinates": coords, "dip point": dip_pt, "min depth": mind, "max depth": rng.choice([660e3, 400e3, 250e3, 150e3, 90e3]), "segments": sj,
          "composition models": [{"model": "uniform", "compositions": [0]}]}
     w = {"version": "1.1", "features": [f]}
     return w, segs, A, B, nh, ln, az, mind, f["max depth"]
